@@ -10,7 +10,8 @@ TIERS = {
 REQUIRED_PROBES = ['instance_processed_2plus_pages_with_lm_carry', 'page_after_predecessor',
                    'fault_swallowed_then_later_page_compared', 'multi_page_run_with_lm_carry', 'scenario_pool',
                    'scenario_crash', 'scenario_seq', 'scenario_oom', 'pool_chunk_with_2plus_pages',
-                   'page_failed_by_injected_oom_later_pages_compared', 'same_layout_object_processed_again']
+                   'page_failed_by_injected_oom_later_pages_compared', 'same_layout_object_processed_again', 'cnn_layout_stage_adaptive',
+                   'cnn_layout_stage_fixed_resolution']
 RULE = ('plans = seeded histories of 2-10 operations (process page / pickle round trip / restart / injected '
         'transient LM exception / line without logits) on up to 3 long-lived PageParser instances over 2-5 '
         'generated pages, decoder knobs randomised per plan; non-trivial = an instance that had already '
@@ -20,9 +21,11 @@ DISTINCT_MEASURE = 'distinct (decoder configuration hash, PageDecoder carried st
 COMPONENTS_REAL = ['PageParser', 'page_decoder_factory', 'PageDecoder', 'decoder_factory',
                    'CTCPrefixLogRawNumpyDecoder', 'GreedyDecoder', 'LMWrapper', 'HiddenState', 'BagOfHypotheses',
                    'TextLine.get_full_logprobs', 'PageParser.update_confidences/filter_confident_lines',
-                   'pickle round trip of the whole PageParser (what Pool does per chunk)']
+                   'pickle round trip of the whole PageParser (what Pool does per chunk)',
+                   'parse_folder.main, LineCropper, PageOCR + PytorchEngineLineOCR, LinePostprocessor, TextlineExtractorSimple, LayoutExtractor + LayoutEngine + TorchParseNet (layer B)']
 COMPONENTS_STUB = ['trained language model -> sim.toylm seeded LSTM (history dependent, tuple state)',
-                   'OCR network output -> generated sparse logits (sim.content)', 'time module -> SimClock']
+                   'OCR network output -> generated sparse logits (sim.content) / TorchScript colour classifier (sim.stubocr)',
+                   'ParseNet of the CNN layout stage -> TorchScript image-operation stub (sim.cnnstub)', 'time module -> SimClock']
 ASSUMPTIONS = ['the toy LSTM stands in for a trained brnolm model (same interface, same state shape)',
                'pages are compared through (line id, transcription, transcription_confidence)',
                'sampling, not proof: a clean batch is evidence only']
